@@ -299,6 +299,19 @@ theorem neg_empty_barrier : allAccepted 1 0 wBarrier0 = true ∧
     circDefects (built 1 0 wBarrier0) = [.emptyBarrier] ∧ latexOutcome (built 1 0 wBarrier0) = .panic :=
   ⟨barrier0_accepted, barrier0_defects, barrier0_latex⟩
 
+/-- well-formed composite bodies: a `Composite` holding `H` on local qubit 1 of a one-qubit composite is accepted
+by `Composite::add_gate` and `Circuit::add_gate`; execution (vector) and all three exporters panic -/
+theorem neg_composite_subgate_out_of_range : allAccepted 1 0 wCompSub = true ∧
+    circDefects (built 1 0 wCompSub) = [.badComposite] ∧ runVec (built 1 0 wCompSub) 1 [] = .panic ∧
+    openQasmCls (built 1 0 wCompSub) = .panic ∧ cQasmCls (built 1 0 wCompSub) = .panic ∧
+    latexOutcome (built 1 0 wCompSub) = .panic :=
+  ⟨compSub_accepted, compSub_defects, compSub_vec, compSub_oq, compSub_cq, compSub_latex⟩
+
+/-- non-vacuity for composites: a well-formed `Composite` and a `Loop` with 0 iterations are `WellFormed` -/
+example : allAccepted 2 2 wCompGood = true ∧ WellFormed (built 2 2 wCompGood) 2 = true ∧
+    openQasmCls (built 2 2 wCompGood) = .ok ∧ latexOutcome (built 2 2 wCompGood) = .ok () :=
+  ⟨compGood_accepted, compGood_wf, compGood_oq, compGood_latex⟩
+
 /-- c-QASM names only `nr_qbits` classical bits: a condition on classical bit 1 of a one-qubit circuit panics -/
 theorem neg_cqasm_control_ge_nq : allAccepted 1 2 wCondCtl = true ∧
     circDefects (built 1 2 wCondCtl) = [.condControlGeNq] ∧ cQasmCls (built 1 2 wCondCtl) = .panic :=
